@@ -184,6 +184,56 @@ def run(ctx, drv):
     ctx.exhaustive = True
     ctx.notes.append(f"exhaustive: all histories of length <= {L} over the 4x4 lattice, capacity 2 and 3, 2 divisions")
 
+    # ---- every way of offering solutions is the same history of `add` calls: `+=` and `extend` with whole lists, chunks and
+    # generators, `append` (the initial archives of PAES / PESA2 are filled with `+=`)
+    for t in range(250 if ctx.quick() else 4000):
+        n = rng.choice([2, 2, 3])
+        dirs = tuple(rng.random() < 0.3 for _ in range(n))
+        capacity, divisions = rng.randrange(2, 7), rng.randrange(2, 5)
+        p = mk_problem(n, dirs, False)
+        pts = []
+        for _ in range(rng.randrange(1, 16)):
+            w = [rng.random() + 0.01 for _ in range(n)]
+            tot = sum(w)
+            q = [(x / tot) + (rng.choice([0.0, 0.0, 0.2]) if rng.random() < 0.3 else 0.0) for x in w]
+            pts.append([(-x if d else x) for x, d in zip(q, dirs)])
+        sols = [mk_sol(p, q, 0.0) for q in pts]
+        ref = C.AdaptiveGridArchive(capacity, n, divisions)
+        for s_ in sols:
+            call(ref.add, s_)
+        how = rng.choice(["+= list", "extend list", "+= chunks", "+= generator", "append each", "extend tuple"])
+        other = C.AdaptiveGridArchive(capacity, n, divisions)
+
+        def feed():
+            nonlocal other
+            if how == "+= list":
+                other += list(sols)
+            elif how == "extend list":
+                other.extend(list(sols))
+            elif how == "extend tuple":
+                other.extend(tuple(sols))
+            elif how == "+= generator":
+                other += (x for x in sols)
+            elif how == "append each":
+                for x in sols:
+                    other.append(x)
+            else:
+                k = rng.randrange(1, 5)
+                for j in range(0, len(sols), k):
+                    other += sols[j:j + k]
+        r = call(feed)
+        inp = {"capacity": capacity, "nobjs": n, "divisions": divisions, "maximise": list(dirs), "constrained": False, "offered_by": how,
+               "history": [[list(s_.objectives), 0.0] for s_ in sols]}
+        if isinstance(r, str):
+            ctx.fail("add-raises", inp, r, "the archive after the same add calls", "core.AdaptiveGridArchive / core.Archive.__iadd__ / extend / append")
+            continue
+        a_ids, b_ids = [sols.index(m) for m in ref], [sols.index(m) for m in other]
+        if a_ids != b_ids or len(b_ids) > capacity or list(other.density) != list(ref.density) or list(other.minimum) != list(ref.minimum) or list(other.maximum) != list(ref.maximum):
+            ctx.fail("entry-point-is-not-repeated-add", inp, {"members": b_ids, "density": [int(d) for d in other.density]},
+                     {"members": a_ids, "density": [int(d) for d in ref.density]}, "core.Archive.__iadd__ / extend / append on AdaptiveGridArchive")
+        ctx.case(("entry", how, tuple(map(tuple, pts)), capacity, divisions), len(sols) > capacity)
+    ctx.count("entry_point_histories", 250 if ctx.quick() else 4000)
+
     try:
         import corr_sizes
     except ImportError:
